@@ -101,7 +101,7 @@ def run(chk, repo):
     got, ok = {}, True
     for order in list(exp) + ['<other>']:
         try:
-            outs = _PE(split_unknown=True).run(itd.node, {'self.order': order})
+            outs = _PE(split_unknown=True, unroll=True).run(itd.node, {'self.order': order})
         except (ValueError, OverflowError) as e_:
             chk.undecided('C20.a', 'output orders', itd.where, f"iterate_target_decoy_database cannot be evaluated for order {order!r}: {e_}")
             ok = None
@@ -129,7 +129,10 @@ def run(chk, repo):
     for c in G.find_calls(main.node, 'sort'):
         if unparse(c.func.value) == 'self.target_db':
             sk = kwarg(c, 'key')
-    ok = isinstance(sk, ast.Lambda) and unparse(sk.body) == f"{sk.args.args[0].arg}.seq"
+    if isinstance(sk, ast.Name) and sk.id in main.module.constants:
+        sk = main.module.constants[sk.id]          # a module-level key function
+    ok = (isinstance(sk, ast.Lambda) and unparse(sk.body) == f"{sk.args.args[0].arg}.seq") or \
+        (isinstance(sk, ast.Call) and unparse(sk.func) in ('operator.attrgetter', 'attrgetter') and [unparse(a) for a in sk.args] == ["'seq'"] and not sk.keywords)
     chk.ob('C20.b', 'sort key is the sequence content', main.where, ok, f"sort key {unparse(sk) if sk is not None else None}", key=main.qual + '::sort-key', fn=main.qual)
     if seed:
         fx = G.facts_at(mcfg, seed[0])
@@ -303,6 +306,10 @@ def run(chk, repo):
                     detail = f"the fill appends `{unparse(sl[0])}` whose lower bound is {lo}; only {A - N} (from the end) or {A} make its length len(seq) - len(decoy)"
                 else:
                     detail = 'tail fill is not a single slice of the target appended to the decoy'
+        if not fills and (out_n is None or not any(isinstance(x, ast.While) for g_ in _se20.with_new_helpers(repo, f) for x in ast.walk(g_.node))):
+            chk.undecided('C20.f', f"{nm}: decoy length", f.where, 'the scan-then-fill construction (a while scan followed by `if len(decoy) < len(seq)`) is not present: the rearrangement is built another way',
+                          key=f.qual + '::tail-fill', fn=f.qual)
+            continue
         chk.ob('C20.f', f"{nm}: after the tail fill the decoy has len(seq) residues", repo.loc(f, fills[0]) if fills else f.where, ok,
                f"{nm}: {detail}: with duplicated or out-of-range fixed indices the count of list entries differs from the number of missing residues, so the decoy "
                "gains / loses residues and is no longer a rearrangement of the target", key=f.qual + '::tail-fill', fn=f.qual)
